@@ -192,6 +192,12 @@ func toGoptunaState(condition api_v1_beta1.TrialStatus_TrialConditionType) (gopt
 		return goptuna.TrialStateComplete, nil
 	} else if condition == api_v1_beta1.TrialStatus_FAILED {
 		return goptuna.TrialStateFail, nil
+	} else if condition == api_v1_beta1.TrialStatus_KILLED ||
+		condition == api_v1_beta1.TrialStatus_METRICSUNAVAILABLE ||
+		condition == api_v1_beta1.TrialStatus_UNKNOWN {
+		// Killed and metrics-unavailable Trials (the controller reports the latter as UNKNOWN)
+		// have no objective value: they are failed Trials for the study.
+		return goptuna.TrialStateFail, nil
 	} else if condition == api_v1_beta1.TrialStatus_EARLYSTOPPED {
 		return goptuna.TrialStatePruned, nil
 	}
